@@ -208,4 +208,225 @@ Proof.
     rewrite qlen_nil, normal_form0 by exact Hv0. ring.
   - inversion Hb; subst m v. symmetry. apply normal_form. exact Hv0.
 Qed.
+
+(* ================================================================ V0 *)
+Definition upd_V0 (s : st) (m : nat) (x : Qc) : st := set_V0 s (set_nth m x (V0 s)).
+Definition in1 (m : nat) (i : nat) : bool := (znth (d_dd1 d) i =? Z.of_nat m)%Z.
+Definition in2 (m : nat) (i : nat) : bool := (znth (d_dd2 d) i =? Z.of_nat m)%Z.
+
+Lemma in12_disjoint m i : NoSelfCombo d -> (i < n)%nat -> in1 m i = true -> in2 m i = true -> False.
+Proof.
+  unfold in1, in2. intros Hns Hi H1 H2. apply Z.eqb_eq in H1, H2.
+  destruct (Hns i Hi) as [H|H]; [lia|congruence].
+Qed.
+
+Lemma mean_V0 s m x i :
+  (m < length (V0 s))%nat ->
+  spec_mean g d (upd_V0 s m x) i
+  = spec_mean g d (upd_V0 s m 0) i + (if in1 m i then x else 0) + (if in2 m i then x else 0).
+Proof.
+  intros Hlt. unfold spec_mean, upd_V0, in1, in2. cbn [W0 W V0 V1 V2 alpha set_V0].
+  rewrite !emb_v_set by exact Hlt.
+  destruct (znth (d_dd1 d) i =? Z.of_nat m)%Z, (znth (d_dd2 d) i =? Z.of_nat m)%Z; ring.
+Qed.
+
+Lemma upd_V0_same s m : upd_V0 s m (vnth (V0 s) m) = s.
+Proof. unfold upd_V0, vnth. rewrite set_nth_same. destruct s; reflexivity. Qed.
+
+Lemma prior_V0 s m x :
+  (m < c_ndd g)%nat -> (m < length (V0 s))%nat ->
+  e_V0 ln g (upd_V0 s m x) - e_V0 ln g (upd_V0 s m 0) = vnth (phi0 s) m * eta0 s * qsq x.
+Proof.
+  intros Hm Hlt. unfold e_V0, upd_V0. cbn [V0 phi0 eta0 set_V0].
+  assert (H : forall z, sumn (c_ndd g) (fun m0 => vnth (phi0 s) m0 * eta0 s * qsq (vnth (set_nth m z (V0 s)) m0))
+                        = sumn (c_ndd g) (fun m0 => vnth (phi0 s) m0 * eta0 s * qsq (vnth (V0 s) m0))
+                          - vnth (phi0 s) m * eta0 s * qsq (vnth (V0 s) m) + vnth (phi0 s) m * eta0 s * qsq z).
+  { intros z. rewrite <- (sumn_update (c_ndd g) m (fun m0 => vnth (phi0 s) m0 * eta0 s * qsq (vnth (V0 s) m0))) by exact Hm.
+    apply sumn_ext; intros k _. rewrite vnth_set_nth, (Nat.eqb_sym m k).
+    apply Nat.ltb_lt in Hlt. rewrite Hlt, andb_true_r. destruct (Nat.eqb k m) eqn:E; [apply Nat.eqb_eq in E; subst|]; reflexivity. }
+  rewrite !H. unfold qsq. ring.
+Qed.
+
+Lemma energy_V0 s m x :
+  energy ln g d (upd_V0 s m x) - energy ln g d (upd_V0 s m 0)
+  = prec s * (sse g d (upd_V0 s m x) - sse g d (upd_V0 s m 0))
+    + (e_V0 ln g (upd_V0 s m x) - e_V0 ln g (upd_V0 s m 0)).
+Proof.
+  unfold energy, e_lik. change (prec (upd_V0 s m x)) with (prec s). change (prec (upd_V0 s m 0)) with (prec s).
+  change (e_W0 ln g (upd_V0 s m x)) with (e_W0 ln g s). change (e_W0 ln g (upd_V0 s m 0)) with (e_W0 ln g s).
+  change (e_W ln g (upd_V0 s m x)) with (e_W ln g s). change (e_W ln g (upd_V0 s m 0)) with (e_W ln g s).
+  change (e_hyper ln g (upd_V0 s m x)) with (e_hyper ln g s). change (e_hyper ln g (upd_V0 s m 0)) with (e_hyper ln g s).
+  cbn [upd_V0 set_V0 V2 V1 phi2 phi1 eta2 eta1]. ring.
+Qed.
+
+Definition idxV (m : nat) : list nat := positions (Z.of_nat m) (d_dd1 d) ++ positions (Z.of_nat m) (d_dd2 d).
+
+Lemma idxV_in m i : ValidData d -> In i (idxV m) -> (i < n)%nat /\ (in1 m i = true \/ in2 m i = true).
+Proof.
+  intros (_ & H1 & H2 & _) Hi. unfold idxV in Hi. apply in_app_or in Hi as [Hi|Hi]; apply positions_lt in Hi as [Ha Hb].
+  - rewrite H1 in Ha. split; [exact Ha|left; exact Hb].
+  - rewrite H2 in Ha. split; [exact Ha|right; exact Hb].
+Qed.
+
+Theorem gauss_block_V0 s m mu v k :
+  ValidData d -> NoSelfCombo d -> cache_ok g d s -> (m < c_ndd g)%nat -> (m < length (V0 s))%nat ->
+  block_V0 d s m = (DNormal mu v, k) -> v <> 0 ->
+  forall x, energy ln g d (upd_V0 s m x) - energy ln g d (upd_V0 s m 0) = (x * x - qofZ 2 * mu * x) / v.
+Proof.
+  intros Hv Hns Hcache Hm Hlt Hb Hv0 x.
+  rewrite energy_V0, prior_V0 by assumption.
+  unfold sse.
+  rewrite (lik_split n (yi d) _ _ (in1 m) (in2 m) (fun _ => x) (fun _ => x));
+    [|intros i Hi; now apply in12_disjoint|intros i _; now apply mean_V0].
+  pose proof Hv as (_ & Hl1 & Hl2 & _).
+  unfold in1 at 1, in2 at 1.
+  rewrite <- (positions_eq (Z.of_nat m) (d_dd1 d) n Hl1), <- (positions_eq (Z.of_nat m) (d_dd2 d) n Hl2).
+  rewrite <- qsum_app, <- map_app. fold (idxV m).
+  assert (Hres : forall i, In i (idxV m) ->
+            yi d i - spec_mean g d (upd_V0 s m 0) i = yi d i - vnth (Mu s) i + vnth (V0 s) m).
+  { intros i Hi. apply (idxV_in m i Hv) in Hi as [Hi Hk].
+    rewrite (cache_nth g d s i) by assumption.
+    rewrite <- (upd_V0_same s m) at 2. rewrite (mean_V0 s m (vnth (V0 s) m)) by assumption.
+    destruct (in1 m i) eqn:E1, (in2 m i) eqn:E2.
+    - exfalso. eapply in12_disjoint; eauto.
+    - ring.
+    - ring.
+    - destruct Hk; discriminate. }
+  transitivity (prec s * qsum (map (fun i => hterm (yi d i - spec_mean g d (upd_V0 s m 0) i) x) (idxV m))
+                + vnth (phi0 s) m * eta0 s * qsq x); [ring|].
+  rewrite (scalar_rows (yi d) _ (vnth (Mu s)) (vnth (V0 s) m)) by exact Hres.
+  unfold block_V0 in Hb. fold (idxV m) in Hb. destruct (idxV m) as [|i0 l] eqn:E.
+  - inversion Hb; subst mu v. cbn [map]. rewrite qsum_nil.
+    rewrite qlen_nil, normal_form0 by exact Hv0. ring.
+  - inversion Hb; subst mu v. symmetry. apply normal_form. exact Hv0.
+Qed.
+
+(* ================================================================ vector blocks: common core *)
+Lemma filter_false_nil {A} (l : list A) : filter (fun _ => false) l = [].
+Proof. induction l; [reflexivity|assumption]. Qed.
+
+Lemma vec_core (mean : list Qc -> nat -> Qc) (s : st) (XA XB : nat -> list Qc) (pA pB : nat -> bool)
+      (cur lam : list Qc) (p : Qc) :
+  (forall i, (i < n)%nat -> pA i = true -> pB i = true -> False) ->
+  (forall x i, (i < n)%nat ->
+     mean x i = mean [] i + (if pA i then vdot D (XA i) x else 0) + (if pB i then vdot D (XB i) x else 0)) ->
+  (forall i, (i < n)%nat -> vnth (Mu s) i = mean cur i) ->
+  forall x,
+    p * (sumn n (fun i => qsq (yi d i - mean x i)) - sumn n (fun i => qsq (yi d i - mean [] i)))
+    + sumn D (fun k => vnth lam k * qsq (vnth x k))
+    = quad D (gramQ D p (mk_rows g d s XA cur (filter pA (seq 0 n)) ++ mk_rows g d s XB cur (filter pB (seq 0 n))) lam) x
+      - qofZ 2 * vdot D (xtr D p (mk_rows g d s XA cur (filter pA (seq 0 n)) ++ mk_rows g d s XB cur (filter pB (seq 0 n)))) x.
+Proof.
+  intros Hdis Hlin Hcache x.
+  rewrite (lik_split n (yi d) _ _ pA pB (fun i => vdot D (XA i) x) (fun i => vdot D (XB i) x) Hdis) by (intros i Hi; now apply Hlin).
+  rewrite <- gauss_rows. f_equal. f_equal. rewrite map_app, qsum_app. unfold mk_rows. rewrite !map_map. cbn [fst snd].
+  f_equal; apply qsum_map_ext; intros i Hi; apply filter_In in Hi as [Hi Hp]; apply in_seq in Hi;
+    assert (Hi' : (i < n)%nat) by lia; f_equal; rewrite (Hcache i Hi'), (Hlin cur i Hi'), Hp.
+  - destruct (pB i) eqn:E; [exfalso; eapply Hdis; eauto|ring].
+  - destruct (pA i) eqn:E; [exfalso; eapply Hdis; eauto|ring].
+Qed.
+
+(* ================================================================ W *)
+Definition upd_W (s : st) (c : nat) (x : list Qc) : st := set_W s (set_nth c x (W s)).
+Definition inC (c : nat) (i : nat) : bool := (znth (d_cl d) i =? Z.of_nat c)%Z.
+
+Lemma xrow_W_nth s i k :
+  ValidData d -> (k < D)%nat ->
+  vnth (xrow_W g d s i) k
+  = vnth (emb_r (V2 s) (znth (d_dd1 d) i)) k * vnth (emb_r (V2 s) (znth (d_dd2 d) i)) k
+    + (vnth (emb_r (V1 s) (znth (d_dd1 d) i)) k + vnth (emb_r (V1 s) (znth (d_dd2 d) i)) k).
+Proof.
+  intros (_ & _ & _ & _ & H1 & H2) Hk. unfold xrow_W, vadd, vmul. rewrite !vnth_tab by exact Hk.
+  rewrite !get_r_emb by (apply H1 || apply H2). reflexivity.
+Qed.
+
+Lemma mean_W s c x i :
+  ValidData d -> (c < length (W s))%nat ->
+  spec_mean g d (upd_W s c x) i
+  = spec_mean g d (upd_W s c []) i + (if inC c i then vdot D (xrow_W g d s i) x else 0) + (if false then 0 else 0).
+Proof.
+  intros Hv Hlt. pose proof Hv as (_ & _ & _ & Hc & _ & _).
+  unfold spec_mean, upd_W, inC. cbn [W0 W V0 V1 V2 alpha set_W].
+  rewrite !rnth_set_nth. rewrite zeqb_nat by apply Hc.
+  apply Nat.ltb_lt in Hlt. rewrite Hlt, andb_true_r.
+  destruct (Nat.eqb c (Z.to_nat (znth (d_cl d) i))); [|ring].
+  unfold vdot. rewrite (sumn_ext D (fun k => vnth (xrow_W g d s i) k * vnth x k)
+     (fun k => vnth x k * (vnth (emb_r (V1 s) (znth (d_dd1 d) i)) k + vnth (emb_r (V1 s) (znth (d_dd2 d) i)) k)
+               + vnth x k * vnth (emb_r (V2 s) (znth (d_dd1 d) i)) k * vnth (emb_r (V2 s) (znth (d_dd2 d) i)) k))
+    by (intros k Hk; rewrite xrow_W_nth by assumption; ring).
+  rewrite sumn_add.
+  rewrite (sumn_zero' D (fun k => vnth [] k * _)) by (intros; rewrite vnth_nil; ring).
+  rewrite (sumn_zero' D (fun k => vnth [] k * _ * _)) by (intros; rewrite vnth_nil; ring).
+  ring.
+Qed.
+
+Lemma upd_W_same s c : upd_W s c (rnth (W s) c) = s.
+Proof. unfold upd_W, rnth. rewrite set_nth_same. destruct s; reflexivity. Qed.
+
+Lemma prior_W s c x :
+  (c < c_ncl g)%nat -> (c < length (W s))%nat ->
+  e_W ln g (upd_W s c x) - e_W ln g (upd_W s c []) = sumn D (fun k => vnth (tau s) k * qsq (vnth x k)).
+Proof.
+  intros Hc Hlt. unfold e_W, upd_W. cbn [W tau set_W].
+  assert (H : forall z, sumn (c_ncl g) (fun c0 => sumn D (fun k => vnth (tau s) k * qsq (vnth (rnth (set_nth c z (W s)) c0) k)))
+                        = sumn (c_ncl g) (fun c0 => sumn D (fun k => vnth (tau s) k * qsq (vnth (rnth (W s) c0) k)))
+                          - sumn D (fun k => vnth (tau s) k * qsq (vnth (rnth (W s) c) k))
+                          + sumn D (fun k => vnth (tau s) k * qsq (vnth z k))).
+  { intros z. rewrite <- (sumn_update (c_ncl g) c (fun c0 => sumn D (fun k => vnth (tau s) k * qsq (vnth (rnth (W s) c0) k)))) by exact Hc.
+    apply sumn_ext; intros k _. rewrite rnth_set_nth, (Nat.eqb_sym c k).
+    apply Nat.ltb_lt in Hlt. rewrite Hlt, andb_true_r. destruct (Nat.eqb k c) eqn:E; [apply Nat.eqb_eq in E; subst|]; reflexivity. }
+  rewrite !H. rewrite (sumn_zero' D (fun k => vnth (tau s) k * qsq (vnth [] k))) by (intros; rewrite vnth_nil; unfold qsq; ring).
+  ring.
+Qed.
+
+Lemma energy_W s c x :
+  energy ln g d (upd_W s c x) - energy ln g d (upd_W s c [])
+  = prec s * (sse g d (upd_W s c x) - sse g d (upd_W s c []))
+    + (e_W ln g (upd_W s c x) - e_W ln g (upd_W s c [])).
+Proof.
+  unfold energy, e_lik. change (prec (upd_W s c x)) with (prec s). change (prec (upd_W s c [])) with (prec s).
+  change (e_W0 ln g (upd_W s c x)) with (e_W0 ln g s). change (e_W0 ln g (upd_W s c [])) with (e_W0 ln g s).
+  change (e_V0 ln g (upd_W s c x)) with (e_V0 ln g s). change (e_V0 ln g (upd_W s c [])) with (e_V0 ln g s).
+  change (e_hyper ln g (upd_W s c x)) with (e_hyper ln g s). change (e_hyper ln g (upd_W s c [])) with (e_hyper ln g s).
+  cbn [upd_W set_W V2 V1 phi2 phi1 eta2 eta1]. ring.
+Qed.
+
+Lemma energy_diff_W s c x :
+  ValidData d -> cache_ok g d s -> (c < c_ncl g)%nat -> (c < length (W s))%nat ->
+  energy ln g d (upd_W s c x) - energy ln g d (upd_W s c [])
+  = quad D (gramQ D (prec s) (mk_rows g d s (xrow_W g d s) (rnth (W s) c) (positions (Z.of_nat c) (d_cl d))) (tau s)) x
+    - qofZ 2 * vdot D (xtr D (prec s) (mk_rows g d s (xrow_W g d s) (rnth (W s) c) (positions (Z.of_nat c) (d_cl d)))) x.
+Proof.
+  intros Hv Hcache Hc Hlt. rewrite energy_W, prior_W by assumption. unfold sse.
+  pose proof Hv as (Hlen & _).
+  rewrite (vec_core (fun z => spec_mean g d (upd_W s c z)) s (xrow_W g d s) (fun _ => []) (inC c) (fun _ => false) (rnth (W s) c) (tau s) (prec s)).
+  - rewrite filter_false_nil. unfold mk_rows at 2 4. cbn [map]. rewrite !app_nil_r.
+    unfold inC. rewrite <- (positions_eq (Z.of_nat c) (d_cl d) n Hlen). reflexivity.
+  - intros; discriminate.
+  - intros z i _. rewrite (mean_W s c z i Hv Hlt). destruct (inC c i); ring.
+  - intros i Hi. rewrite upd_W_same. now apply cache_nth.
+Qed.
+
+Theorem gauss_block_W s c Q b k :
+  ValidData d -> cache_ok g d s -> (c < c_ncl g)%nat -> (c < length (W s))%nat ->
+  block_W g d s c = (DMvn Q b, k) ->
+  forall x, energy ln g d (upd_W s c x) - energy ln g d (upd_W s c []) = quad D Q x - qofZ 2 * vdot D b x.
+Proof.
+  intros Hv Hcache Hc Hlt Hb x. rewrite energy_diff_W by assumption.
+  unfold block_W in Hb. destruct (positions (Z.of_nat c) (d_cl d)) as [|i0 l] eqn:E; [discriminate|].
+  inversion Hb; subst Q b. reflexivity.
+Qed.
+
+Theorem prior_block_W s c vars k :
+  ValidData d -> cache_ok g d s -> (c < c_ncl g)%nat -> (c < length (W s))%nat ->
+  block_W g d s c = (DNormalVec vars, k) ->
+  vars = map Qcinv (tau s) /\
+  forall x, energy ln g d (upd_W s c x) - energy ln g d (upd_W s c []) = sumn D (fun j => vnth (tau s) j * qsq (vnth x j)).
+Proof.
+  intros Hv Hcache Hc Hlt Hb. unfold block_W in Hb.
+  destruct (positions (Z.of_nat c) (d_cl d)) as [|i0 l] eqn:E; [|discriminate].
+  inversion Hb; subst vars. split; [reflexivity|]. intros x.
+  rewrite energy_diff_W, E by assumption. unfold mk_rows. cbn [map].
+  rewrite <- gauss_rows. cbn [map]. rewrite qsum_nil. ring.
+Qed.
 End Blocks.
